@@ -650,7 +650,7 @@ class X12SegmentDataNode(X12DataNode):
         seg_data = self.get_first_matching_segment(x12_path_str)
         if seg_data is None:
             return None
-        return seg_data.get_value(x12_path_str)
+        return seg_data.get_value(self._seg_part(x12_path_str))
 
     def set_value(self, x12_path_str, val):
         """
@@ -665,7 +665,20 @@ class X12SegmentDataNode(X12DataNode):
             raise errors.X12PathError('X12 Path is invalid or was not found: %s' % (x12_path_str))
         #ele_idx = self.get_ele_idx(x12_path_str)
         #seg_data.set(ele_idx, val)
-        seg_data.set(x12_path_str, val)
+        seg_data.set(self._seg_part(x12_path_str), val)
+
+    def _seg_part(self, x12_path_str):
+        """
+        The reference designator a path ends in: without the '../' and loop
+        ids that lead to the segment
+        """
+        (curr, new_path) = self._get_start_node(x12_path_str)
+        if curr is self:
+            return x12_path_str
+        xpath = path.X12Path(new_path)
+        xpath.loop_list = []
+        xpath.id_val = None
+        return xpath.format()
 
     def get_first_matching_segment(self, x12_path_str):
         """
@@ -680,6 +693,9 @@ class X12SegmentDataNode(X12DataNode):
         @raise X12PathError: On blank or invalid path
         """
         (curr, new_path_str) = self._get_start_node(x12_path_str)
+        if curr is not self:
+            # '../' leads to the enclosing loop: resolve the rest there
+            return curr.get_first_matching_segment(new_path_str)
         xpath = path.X12Path(new_path_str)
         if len(xpath.loop_list) != 0:
             raise errors.X12PathError('This X12 Path should not contain loops: %s' % (x12_path_str))
